@@ -113,10 +113,12 @@ def gen_offs_cases(ctx, count, nbs=(1, 2, 3), prefix="o"):
             v0 = f32(rng.choice([0, 0, 1e4, 4.5e4, -2e4]))
             kind, rfpar = "sin", [f32(rng.choice([1e-3, 2.3e-4, 7.7e-3])), vrf, f32(rng.choice([5e8, 1.3e9])), v0]
         c = rng.random()
-        if c < 0.3:
+        if c < 0.25:
             slip = [a]
-        elif c < 0.5:
+        elif c < 0.4:
             slip = [a, 0.0, 0.0]
+        elif c < 0.55:
+            slip = [a, f32(a * rng.uniform(-3, 3))]          # two entries: the accumulation loop runs over slip.size()
         else:
             slip = [a, f32(a * rng.uniform(-3, 3)), f32(a * rng.uniform(-20, 20))]
         s = RFSetup("%s%d" % (prefix, i), n, nb, it, qmin, qmax, qscale, pmin, pmax, pscale, kind, rfpar, slip, E0)
